@@ -9,4 +9,5 @@ A3 == [members |-> << M("file", 1, 1, 0), M("file", 2, 1, 0), M("file", 3, 1, 0)
 A4 == [members |-> << M("dir", 0, 0, 0), M("empty", 0, 0, 1) >>, nfolders |-> 0, damaged |-> {}]
 A5 == [members |-> << M("file", 1, 1, 0), M("file", 1, 2, 0), M("file", 2, 1, 0) >>, nfolders |-> 2, damaged |-> {1}]
 MCArchives == {A1, A2, A3, A4, A5}
+FalseDef == FALSE     \* CONSTANT ExtractResets <- FalseDef: the tree before extract() reset the decoders itself
 =============================================================================
